@@ -18,6 +18,7 @@ CONSTANTS
   SymSet = {FALSE}
   WithB = FALSE
   AllOrders = FALSE
+  RestartIters = {1}
 VIEW mcview
 INVARIANT TypeOK
 INVARIANT NoError
